@@ -211,7 +211,9 @@ TReceive ==
          a == [sl |-> e.sl, dest |-> e.dest, amt |-> e.amt, ttl |-> e.ttl, hasproof |-> e.hasproof, kernin |-> e.kernin]
          bad == Has(e, "tamper") /\ e.tamper # ""      \* a request that cannot be served: refused without effect
          \* (the key index is taken before the kernel is built: the gap it leaves is legal residue)
-         r == IF bad THEN [steps |-> <<BumpChild(st, w)>>, res |-> "bad", key |-> "", rep |-> 0] ELSE Receive(st, w, a)
+         \* named havoc: whether the refusal comes before or after the key index is taken depends on the reason
+         r == IF bad THEN [steps |-> IF S2.w[w].idx = st.w[w].idx THEN <<>> ELSE <<BumpChild(st, w)>>, res |-> "bad", key |-> "", rep |-> 0]
+              ELSE Receive(st, w, a)
          acct == AcctOf(st, w, e.dest)
          hv2 == IF Ok(e) THEN HvAfterReceive(st, S2, hv, w, e.sl) ELSE hv IN
      /\ Check(ReplayNoEffectA(st, S2, hv, w, "receive", e.sl, e.res, acct), "C03", "ReplayNoEffect", e, "receive")
